@@ -146,7 +146,7 @@ func (m *mp) dumpSN(sn *state.StateNode, markedIDs map[string]bool) snDump {
 // NodeClaims with a provider id and Nodes, joined by provider id; the requests / daemonset requests / host ports of the
 // pods that are bound to the node and not terminal (phase Succeeded / Failed) — a terminating pod still holds its
 // resources.  Only "marked for deletion" is taken from the harness (it is an in-memory decision, not an API fact).
-func (m *mp) apiSNs(c *kit.Ctx) []snDump {
+func (m *mp) apiSNs(count func(string)) []snDump {
 	ncs := &v1.NodeClaimList{}
 	nodes := &corev1.NodeList{}
 	pods := &corev1.PodList{}
@@ -198,11 +198,11 @@ func (m *mp) apiSNs(c *kit.Ctx) []snDump {
 				continue
 			}
 			if p.Status.Phase == corev1.PodSucceeded || p.Status.Phase == corev1.PodFailed {
-				c.Count("bound-pod.terminal-not-counted")
+				count("bound-pod.terminal-not-counted")
 				continue
 			}
 			if p.DeletionTimestamp != nil {
-				c.Count("bound-pod.terminating-counted")
+				count("bound-pod.terminating-counted")
 			}
 			bound = append(bound, p)
 			for _, o := range p.OwnerReferences {
@@ -368,7 +368,7 @@ func (m *mp) runPass(c *kit.Ctx, label string, markedIDs map[string]bool, world 
 	out := &passOut{Errors: map[string]string{}}
 	_ = nodes
 	// the state nodes handed to the model come from the API, not from the cluster state the scheduler used
-	out.SNs = m.apiSNs(c)
+	out.SNs = m.apiSNs(c.Count)
 	for _, d := range out.SNs {
 		if d.deleting() {
 			c.Count("statenode.deleting." + d.Stage)
@@ -483,10 +483,46 @@ func firstTermExprs(p *corev1.Pod) []corev1.NodeSelectorRequirement {
 // during a pass, so a node that rejected the pod when it was tried still rejects it).  The one known exception is
 // C01's finding existing-node-undefined-label-after-notin (a later `k NotIn` pod makes key k "defined" on the node).
 func (m *mp) witnessNewClaims(c *kit.Ctx, res psched.Results, label string, world int) {
+	if len(res.NewNodeClaims) == 0 {
+		return
+	}
 	all := !m.cfg.IgnorePreferences
+	// the existing nodes are rebuilt from a FRESH cluster state hydrated from the API, then the pass's own placements on
+	// existing nodes are replayed on them
+	fv, err := m.fresh()
+	if err != nil {
+		panic(err)
+	}
+	fs, _, err := fv.probe(m)
+	if err != nil || fs == nil {
+		c.Count("witness.no-fresh-scheduler")
+		return
+	}
+	freshByName := map[string]*psched.ExistingNode{}
+	for _, en := range fs.VerifC04ExistingNodes() {
+		freshByName[en.Name()] = en
+	}
+	for _, en := range res.ExistingNodes {
+		fe := freshByName[en.Name()]
+		if fe == nil {
+			if len(en.Pods) > 0 {
+				c.Count("witness.placement-on-node-unknown-to-fresh-state")
+			}
+			continue
+		}
+		for _, p := range en.Pods {
+			q := p.DeepCopy()
+			pd := podData(q, all)
+			if reqs, _, err := fe.CanAdd(m.ctx, q, pd, scheduling.Volumes{}, nil); err == nil {
+				fe.Add(m.ctx, q, pd, reqs, scheduling.Volumes{}, nil)
+			} else {
+				c.Count("witness.fresh-node-rejects-a-placement-of-the-pass")
+			}
+		}
+	}
 	for _, nc := range res.NewNodeClaims {
 		opener := nc.Pods[0]
-		for _, en := range res.ExistingNodes {
+		for _, en := range fs.VerifC04ExistingNodes() {
 			q := opener.DeepCopy()
 			if _, _, err := en.CanAdd(m.ctx, q, podData(q, all), scheduling.Volumes{}, nil); err != nil {
 				c.Count("witness.existing-node-rejects-opener")
@@ -507,8 +543,9 @@ func (m *mp) witnessNewClaims(c *kit.Ctx, res psched.Results, label string, worl
 				}
 			}
 			c.Count("witness.existing-node-ACCEPTS-opener")
-			c.Fail(c.NextID(), fmt.Sprintf("real ExistingNode.CanAdd of %s accepts pod %s/%s, which was placed on a new NodeClaim (pass %s)", en.Name(), opener.Namespace, opener.Name, label), key,
-				map[string]interface{}{"kind": "witness", "world": world, "stage": label, "node": en.Name(), "nodeLabels": labels, "pod": dumpPodK(opener), "podsPlacedOnNode": lo.Map(en.Pods, func(p *corev1.Pod, _ int) sk.PodDump { return dumpPodK(p) }), "kf_key": key})
+			c.Fail(c.NextID(), fmt.Sprintf("real ExistingNode.CanAdd of %s (built from a fresh cluster state fed the current API) accepts pod %s/%s, which was placed on a new NodeClaim (pass %s)", en.Name(), opener.Namespace, opener.Name, label), key,
+				map[string]interface{}{"kind": "witness", "world": world, "stage": label, "node": en.Name(), "nodeLabels": labels, "pod": dumpPodK(opener), "remainingOnFreshNode": sk.Milli(en.VerifC04Remaining()),
+					"podsPlacedOnNode": lo.Map(en.Pods, func(p *corev1.Pod, _ int) sk.PodDump { return dumpPodK(p) }), "kf_key": key})
 		}
 	}
 }
@@ -533,7 +570,11 @@ func podData(p *corev1.Pod, all bool) *psched.PodData {
 // to the REAL ExistingNode the scheduler builds for that claim now (trySchedule's loop restricted to this node:
 // CanAdd, Relax on failure).  Emits a CRerun case.
 func (m *mp) rerunClaim(c *kit.Ctx, claim string, podKeys []string, stage string, world int) bool {
-	s, _, nodes, err := m.probe()
+	fv, err := m.fresh()
+	if err != nil {
+		panic(err)
+	}
+	s, _, err := fv.probe(m)
 	if err != nil || s == nil {
 		return true
 	}
@@ -547,10 +588,11 @@ func (m *mp) rerunClaim(c *kit.Ctx, claim string, podKeys []string, stage string
 			en = e
 		}
 	}
-	var sn *state.StateNode
-	for _, n := range nodes {
-		if n.NodeClaim != nil && n.NodeClaim.Name == claim {
-			sn = n
+	var sn *snDump
+	for _, x := range m.apiSNs(func(string) {}) {
+		if x.HasClaim && x.ClaimName == claim && !x.deleting() {
+			y := x
+			sn = &y
 		}
 	}
 	if en == nil || sn == nil {
@@ -590,7 +632,7 @@ func (m *mp) rerunClaim(c *kit.Ctx, claim string, podKeys []string, stage string
 			realOK = false
 		}
 	}
-	d := m.dumpSN(sn, map[string]bool{})
+	d := *sn
 	var daemons []sk.PodDump
 	for _, ds := range m.w.DaemonSets {
 		daemons = append(daemons, dumpPodK(daemonset.PodForDaemonSet(ds)))
@@ -693,6 +735,127 @@ func (m *mp) reconcileProvisioner(keys []types.NamespacedName) (ran bool, create
 	}
 }
 
+// ---------------------------------------------------------------- pods that finish or are being deleted while bound to a node
+
+type jobPod struct {
+	NS, Name, Node, NodeNS string
+	Done                   bool
+}
+
+func runningPod(name, node string, cpuMilli, memMi int64) *corev1.Pod {
+	return &corev1.Pod{ObjectMeta: metav1.ObjectMeta{Name: name, Namespace: "default", UID: types.UID("uid-" + name), Labels: map[string]string{"app": "job"}},
+		Spec:   corev1.PodSpec{NodeName: node, Containers: []corev1.Container{{Name: "c", Image: "pause", Resources: corev1.ResourceRequirements{Requests: sk.RLOf(cpuMilli, memMi, -1)}}}},
+		Status: corev1.PodStatus{Phase: corev1.PodRunning, Conditions: []corev1.PodCondition{{Type: corev1.PodScheduled, Status: corev1.ConditionTrue}}}}
+}
+
+// freeOn is what the API says is free on a node: allocatable minus the requests of the bound non-terminal pods.
+func (m *mp) freeOn(node string) (cpu, memMi, pods int64, ok bool) {
+	for _, d := range m.apiSNs(func(string) {}) {
+		if d.HasNode && d.NodeName == node && !d.deleting() {
+			return d.NodeAlloc["cpu"] - d.PodReq["cpu"], (d.NodeAlloc["memory"] - d.PodReq["memory"]) / 1000 >> 20, (d.NodeAlloc["pods"] - d.PodReq["pods"]) / 1000, true
+		}
+	}
+	return 0, 0, 0, false
+}
+
+// startJobs binds a running pod to some of the world's nodes (those that have a Node object and are not being
+// deleted), sized to a good part of what is free there.
+func (m *mp) startJobs(c *kit.Ctx) []*jobPod {
+	var jobs []*jobPod
+	for i, n := range m.w.Nodes {
+		if n.Node == nil || n.Kind == "deleting" || !m.r.Chance(2, 3) {
+			continue
+		}
+		cpu, mem, pods, ok := m.freeOn(n.Node.Name)
+		if !ok || cpu < 600 || mem < 256 || pods < 2 {
+			continue
+		}
+		want := cpu * int64(kit.Pick(m.r, []int{2, 3})) / 4 / 50 * 50
+		p := runningPod(fmt.Sprintf("job-%d", i), n.Node.Name, want, 64)
+		kit.Apply(m.ctx, m.cl, p)
+		m.podEvent(p.Namespace, p.Name)
+		jobs = append(jobs, &jobPod{NS: p.Namespace, Name: p.Name, Node: n.Node.Name, NodeNS: n.Node.Namespace})
+		c.Count("job.started-on-" + n.Kind + "-node")
+	}
+	return jobs
+}
+
+// finishJob lets a bound pod complete (Succeeded / Failed), or start terminating (deletionTimestamp, still running),
+// or both, delivers the pod event and a plain node event in one of the possible orders, and adds a pending pod that fits
+// exactly into the room the pod occupies (it must go there iff the room is really free).
+func (m *mp) finishJob(c *kit.Ctx, j *jobPod, seq int) {
+	p := &corev1.Pod{}
+	if err := m.cl.Get(m.ctx, client.ObjectKey{Namespace: j.NS, Name: j.Name}, p); err != nil {
+		return
+	}
+	how := kit.Pick(m.r, []string{"succeeded", "succeeded", "failed", "terminating", "terminating+succeeded"})
+	if how == "terminating" || how == "terminating+succeeded" {
+		p.Finalizers = append(p.Finalizers, "example.com/hold")
+		if err := m.cl.Update(m.ctx, p); err != nil {
+			panic(err)
+		}
+		if err := m.cl.Delete(m.ctx, p); err != nil {
+			panic(err)
+		}
+		if err := m.cl.Get(m.ctx, client.ObjectKey{Namespace: j.NS, Name: j.Name}, p); err != nil {
+			panic(err)
+		}
+	}
+	if how != "terminating" {
+		p.Status.Phase = corev1.PodSucceeded
+		if how == "failed" {
+			p.Status.Phase = corev1.PodFailed
+		}
+		if err := m.cl.Status().Update(m.ctx, p); err != nil {
+			panic(err)
+		}
+		j.Done = true
+	}
+	order := kit.Pick(m.r, []string{"pod-event-only", "pod-event-then-node-event", "pod-event-then-node-event", "node-event-then-pod-event"})
+	switch order {
+	case "pod-event-only":
+		m.podEvent(j.NS, j.Name)
+	case "pod-event-then-node-event":
+		m.podEvent(j.NS, j.Name)
+		m.nodeEvent(j.Node, j.NodeNS)
+	case "node-event-then-pod-event":
+		m.nodeEvent(j.Node, j.NodeNS)
+		m.podEvent(j.NS, j.Name)
+	}
+	c.Count("job." + how + "." + order)
+	// the room of the job pod: free (API) if the pod is terminal, free + its own requests if it only terminates
+	cpu, mem, pods, ok := m.freeOn(j.Node)
+	if !ok {
+		return
+	}
+	if how == "terminating" {
+		cpu += p.Spec.Containers[0].Resources.Requests.Cpu().MilliValue()
+	}
+	cpu -= int64(kit.Pick(m.r, []int{0, 0, 50}))
+	if cpu < 50 || mem < 64 || pods < 1 {
+		return
+	}
+	f := &corev1.Pod{ObjectMeta: metav1.ObjectMeta{Name: fmt.Sprintf("fill-%d", seq), Namespace: "default", UID: types.UID(fmt.Sprintf("uid-fill-%d", seq)), Labels: map[string]string{"app": "fill"}},
+		Spec: corev1.PodSpec{Tolerations: []corev1.Toleration{{Operator: corev1.TolerationOpExists}},
+			Containers: []corev1.Container{{Name: "c", Image: "pause", Resources: corev1.ResourceRequirements{Requests: sk.RLOf(cpu, 32, -1)}}}},
+		Status: corev1.PodStatus{Phase: corev1.PodPending, Conditions: []corev1.PodCondition{{Type: corev1.PodScheduled, Status: corev1.ConditionFalse, Reason: corev1.PodReasonUnschedulable}}}}
+	m.addPending(f)
+	c.Count("job.filler-pod-added")
+}
+
+// completedPodOnNewNode binds an already finished pod to an in-flight node that has just appeared (a short job the
+// kube-scheduler placed there the moment the node showed up): pod event first, node events follow with the lifecycle.
+func (m *mp) completedPodOnNewNode(c *kit.Ctx, node string) {
+	p := runningPod("done-on-"+node, node, int64(kit.Pick(m.r, []int{500, 1000, 2000})), 64)
+	p.Status.Phase = kit.Pick(m.r, []corev1.PodPhase{corev1.PodSucceeded, corev1.PodFailed})
+	kit.Apply(m.ctx, m.cl, p)
+	m.podEvent(p.Namespace, p.Name)
+	if m.r.Bool() {
+		m.nodeEvent(node, "")
+	}
+	c.Count("job.completed-pod-on-in-flight-node")
+}
+
 func runWorld(c *kit.Ctx, r *kit.Rand, idx int) {
 	w := sk.Gen(r, sk.GenOpts{Thorough: c.Thorough(), NoTopology: true})
 	// the property is about pods without preferences and without inter-pod constraints
@@ -727,11 +890,26 @@ func runWorld(c *kit.Ctx, r *kit.Rand, idx int) {
 		c.Fail(c.NextID(), "harness could not build the world: "+err.Error(), "", nil)
 		return
 	}
-	marked := map[string]bool{}
-	for _, n := range w.Nodes {
-		if n.Kind == "deleting" && n.Node != nil {
-			marked[n.Node.Spec.ProviderID] = true
+	marked := m.marked
+	jobs := m.startJobs(c)
+	fillSeq := 0
+	jobEvent := func() { // before a pass: maybe one of the bound pods finishes / starts terminating
+		var open []*jobPod
+		for _, j := range jobs {
+			if !j.Done {
+				open = append(open, j)
+			}
 		}
+		if len(open) == 0 || !r.Chance(2, 3) {
+			return
+		}
+		j := kit.Pick(r, open)
+		fillSeq++
+		m.finishJob(c, j, fillSeq)
+		j.Done = true
+	}
+	if r.Chance(1, 3) {
+		jobEvent()
 	}
 	var podKeys []types.NamespacedName
 	for _, p := range w.Pods {
@@ -753,6 +931,13 @@ func runWorld(c *kit.Ctx, r *kit.Rand, idx int) {
 	}
 	if len(p0.Results.NewNodeClaims) == 0 {
 		c.Count("world.no-new-claims")
+		for k := 0; k < 2; k++ { // no capacity is starting: still let bound pods finish and re-run
+			jobEvent()
+			if _, err := m.runPass(c, "1-no-claims-rerun", marked, idx); err != nil {
+				c.Fail(c.NextID(), "harness could not run a later pass: "+err.Error(), "", nil)
+				return
+			}
+		}
 		emitSync(c, segs, idx)
 		return
 	}
@@ -842,7 +1027,7 @@ func runWorld(c *kit.Ctx, r *kit.Rand, idx int) {
 					steps = 4
 				}
 				for k := 0; k < steps && stage[n] < 4; k++ {
-					m.advance(n, stage)
+					m.advance(c, n, stage)
 				}
 			}
 		}
@@ -864,6 +1049,7 @@ func runWorld(c *kit.Ctx, r *kit.Rand, idx int) {
 		for _, n := range live {
 			c.Count(fmt.Sprintf("claim-stage.%d", stage[n]))
 		}
+		jobEvent()
 		pk, err := m.runPass(c, labels[round], marked, idx)
 		if err != nil && os.Getenv("C04_DEBUG") != "" {
 			l := &v1.NodePoolList{}
@@ -980,15 +1166,18 @@ func stageName(s int) string {
 }
 
 // advance moves one NodeClaim one step along its lifecycle with the real controllers.
-func (m *mp) advance(n string, stage map[string]int) {
+func (m *mp) advance(c *kit.Ctx, n string, stage map[string]int) {
 	nc := &v1.NodeClaim{}
 	if err := m.cl.Get(m.ctx, client.ObjectKey{Name: n}, nc); err != nil {
 		return
 	}
 	switch stage[n] {
 	case 1:
-		m.nodeAppears(nc, m.r.Chance(2, 3))
+		node := m.nodeAppears(nc, m.r.Chance(2, 3))
 		stage[n] = 2
+		if m.r.Chance(1, 2) {
+			m.completedPodOnNewNode(c, node.Name)
+		}
 	case 2:
 		out := m.reconcileClaim(n)
 		if out != nil && out.StatusConditions().Get(v1.ConditionTypeRegistered).IsTrue() {
